@@ -181,7 +181,7 @@ def run(ctx):
 
     # ---------------- searcher: library-only round trips
     fails = []
-    nrt = ctx.scale(30, 300)
+    nrt = ctx.scale(60, 600)
     for k in range(nrt):
         order = [2, 4, 6, 8, 10][k % 5]
         n = rng.choice([2, 3, 5, 8])
@@ -190,18 +190,33 @@ def run(ctx):
         sim.ri_janus.order = order
         sp = 10 ** rng.uniform(-16, -10); sv = 10 ** rng.uniform(-16, -10)
         sim.ri_janus.scale_pos = sp; sim.ri_janus.scale_vel = sv
+        # every force routine JANUS can be combined with, and active/test-particle splits: the force must be a function
+        # of the positions alone, whatever bookkeeping the gravity module keeps between calls
+        grav = rng.choice(["basic", "basic", "compensated", "compensated", "none"])
+        nact = rng.choice([-1, -1, rng.randint(1, n)])
+        long_tp = (k % 6 == 5) and order <= 6 and n >= 3
+        if long_tp:
+            # long runs with several active bodies and test particles under compensated summation (state kept by the
+            # gravity module between calls must not leak into the accelerations)
+            grav = "compensated"; nact = rng.randint(2, n - 1)
+            sp = sv = 1e-16; sim.ri_janus.scale_pos = sp; sim.ri_janus.scale_vel = sv     # finest grid: a last-bit change of an acceleration shows
+        sim.gravity = grav
+        sim.N_active = nact
+        sim.testparticle_type = rng.choice([0, 1])
         dt = rng.choice([1, -1]) * rng.uniform(1e-3, 0.1)
         sim.dt = dt
         nsteps = rng.randint(1, ctx.scale(30, 200) if order < 10 else 8)
+        if long_tp: nsteps = rng.randint(250, 400)
         sim.step()                      # first step puts the state on the integer grid
         sim.dt = -dt; sim.step(); sim.dt = dt
         s0 = state(sim); i0 = pint_list(sim)
         for _ in range(nsteps): sim.step()
         sim.dt = -dt
         for _ in range(nsteps): sim.step()
-        ctx.case(key=("rt", order, n, nsteps))
+        ctx.case(key=("rt", order, n, nsteps, grav, nact != -1))
         if pint_list(sim) != i0 or any(not vlib.same_bits(a, b) for a, b in zip(state(sim), s0)):
             fails.append({"integrator": "janus", "order": order, "N": n, "scale_pos": sp, "scale_vel": sv, "dt": dt,
+                          "gravity": grav, "N_active": nact, "testparticle_type": sim.testparticle_type,
                           "steps": nsteps, "masses": [p.m for p in sim.particles], "state0": [x.hex() for x in s0]})
     if fails:
         f = min(fails, key=lambda d: (d["steps"], d["N"]))
